@@ -1,4 +1,5 @@
-// C09 (histories), second binary of the same predicate: props/C09.cpp compiled under another name so that two
-// bounded-exhaustive stages of one plan (bound 2 under ASan with C09, bound 3 on the plain build with C09_ex) write
-// separate partial-evidence files (bin/check names them <binary>-<mode>-w<worker>-g<generation>.json).
+// C09 (histories), bounded-exhaustive binary: props/C09.cpp compiled with C09_EX_ONLY, so that every mode of this binary
+// (ex, and above all --replay of a tape written by an ex stage) decodes tapes with the exhaustive generator; the C09
+// binary decodes replays with the random-history generator. A tape does not record which generator wrote it.
+#define C09_EX_ONLY 1
 #include "C09.cpp"
